@@ -1331,7 +1331,8 @@ def io_count_cases(rng, n):
             expect.append((n_unrep, fault))
         evs = ",".join(p for p in pieces if p)
         meth = rng.choice("rRnN")            # read / read_nb / next / next_nb: the same counts through every entry point
-        calls = (meth + "b") * (2 * len(expect) + 2)
+        tgt = rng.choice("bbfp")             # ... and for every target type (the count travels through the error conversions)
+        calls = (meth + tgt) * (2 * len(expect) + 2)
         out.append(Case("rd io %s %s %s" % (rng.choice(["-", "64", "8192"]), evs, calls), "io-count-" + meth, dict(iocount=expect, meth=meth)))
     return out
 
